@@ -385,7 +385,15 @@ const c18Boot = "title: Boot\n---\nbooting\n<<jump N1>>\n===\n"
 
 // breakSyntax plants one syntax error in a valid script.
 func breakSyntax(r *core.Rand, s string) string {
-	switch r.Intn(4) {
+	switch r.Intn(6) {
+	case 4:
+		// something indented after the end of the last node: the load is refused while a block is open
+		return s + "    : stray " + fmt.Sprint(r.Intn(1000)) + "\n"
+	case 5:
+		// the first reader ends in the middle of a nested block
+		if i := strings.Index(s, "\n    "); i > 0 {
+			return s[:i] + "\n        -> cut " + fmt.Sprint(r.Intn(1000)) + "\n            <<if"
+		}
 	case 0:
 		return strings.Replace(s, "\n===\n", "\n<<endif>>\n===\n", 1)
 	case 1:
